@@ -9,23 +9,63 @@ namespace Pulsar
 /-- The generated unmarshal closure never panics: every slice expression is guarded, for every
     schema (well-formed or not), every byte string, every target, every option and budget. -/
 theorem C06_closure_no_panic (S : Schema) (o : UOpts) (fuel : Nat) (depth : Int) (i : Nat) (into : Val) (bs : Bytes) :
-    implUnmarshalClosure S o fuel depth i into bs ≠ .panic := sorry
+    implUnmarshalClosure S o fuel depth i into bs ≠ .panic :=
+  implUnmarshalClosure_ne_panic S o fuel depth i into bs
 
 /-- proto.Unmarshal into a fresh message never panics (closure + protobuf-go's initialisation walk). -/
 theorem C06_no_panic (S : Schema) (o : UOpts) (i : Nat) (bs : Bytes) (ho : o.merge = false) :
-    implUnmarshal S o i (emptyMsg S i) bs ≠ .panic := sorry
+    implUnmarshal S o i (emptyMsg S i) bs ≠ .panic :=
+  -- (`ho` is not needed: the fresh target is nil-free, so even Merge into it cannot panic)
+  have _ := ho
+  implUnmarshal_fresh_ne_panic S o i bs
 
 /-- The fuel bounds nothing: any fuel at least the input length + 1 gives the same result (the
     record loop always makes progress, nested payloads are strictly shorter). -/
 theorem C06_fuel_irrelevant (S : Schema) (o : UOpts) (fuel : Nat) (depth : Int) (i : Nat) (into : Val) (bs : Bytes)
     (h : bs.length + 1 ≤ fuel) :
-    implUnmarshalClosure S o fuel depth i into bs = implUnmarshalClosure S o (bs.length + 1) depth i into bs := sorry
+    implUnmarshalClosure S o fuel depth i into bs = implUnmarshalClosure S o (bs.length + 1) depth i into bs :=
+  implUnmarshalClosure_fuel S o fuel (bs.length + 1) depth i into bs h (Nat.le_refl _)
 
 /-- Nesting is bounded by the recursion budget: a decode with budget `d ≥ 1` never builds a message
-    nested deeper than `d` levels below (and including) its target, beyond what the target already held. -/
+    nested deeper than `d` levels below (and including) its target, beyond what the target already held.
+
+    FALSE as stated (see `C06_remark_depth_bound_d_fails`), for two independent reasons:
+    * the map code allocates an empty message for an entry without a value field
+      (`if mapvalue == nil { mapvalue = &T{} }`) without spending budget, so a message-valued map at
+      the last permitted level adds one more level (off by one, not a stack hazard: no recursion);
+    * the model's tree fuel: with `fuel ≤` the input length a child call can run out of fuel and
+      return its target unchanged instead of the recursion error.
+    Proved instead: `d + 1` for every schema and fuel (`C06_depth_bounded`), and exactly `d`
+    when no map field has a message value and the fuel is the one `proto.Unmarshal` uses
+    (`C06_depth_bounded_exact`). -/
+def Remark_depth_bound_d : Prop :=
+  ∀ (S : Schema) (o : UOpts) (fuel : Nat) (d : Nat) (i : Nat) (into v : Val) (bs : Bytes),
+    1 ≤ d → implUnmarshalClosure S o fuel (d : Int) i into bs = .ok v → v.depth ≤ max into.depth d
+
 theorem C06_depth_bounded (S : Schema) (o : UOpts) (fuel : Nat) (d : Nat) (i : Nat) (into v : Val) (bs : Bytes)
     (hd : 1 ≤ d) (h : implUnmarshalClosure S o fuel (d : Int) i into bs = .ok v) :
-    v.depth ≤ max into.depth d := sorry
+    v.depth ≤ max into.depth (d + 1) :=
+  implUnmarshalClosure_depth_le S o fuel d i into v bs hd h
+
+theorem C06_depth_bounded_exact (S : Schema) (o : UOpts) (fuel : Nat) (d : Nat) (i : Nat) (into v : Val)
+    (bs : Bytes) (hS : NoMsgMap S) (hf : bs.length + 1 ≤ fuel)
+    (hd : 1 ≤ d) (h : implUnmarshalClosure S o fuel (d : Int) i into bs = .ok v) :
+    v.depth ≤ max into.depth d := by
+  have := implUnmarshalClosure_depth_exact S hS o fuel (d : Int) i into bs v hf h
+  rwa [exactBound_pos d hd] at this
+
+/-- `message M { map<int32, N> f = 1; }  message N {}` -/
+def mapSchema : Schema := ⟨[⟨[⟨1, .message 1, .map .int32⟩]⟩, ⟨[]⟩]⟩
+
+/-- budget 1, ample fuel, the two bytes `0a 00` (one map entry with neither key nor value): the result
+    `{f: {0: {}}}` has depth 2. -/
+theorem C06_remark_depth_bound_d_fails : ¬ Remark_depth_bound_d := by
+  intro h
+  have h1 : implUnmarshalClosure mapSchema {} 3 ((1 : Nat) : Int) 0 (emptyMsg mapSchema 0) [0x0a, 0x00] =
+      .ok (.msg [.map true [.entry (.bits 0) (.msg [] [])]] []) := by rfl
+  have := h mapSchema {} 3 1 0 (emptyMsg mapSchema 0) _ [0x0a, 0x00] (by decide) h1
+  revert this
+  decide
 
 /-- Concretely: on a self-recursive message type, 10000 levels of nesting are accepted and 10001 are
     rejected with the recursion error (the protobuf-go limit), for every deeper input as well. -/
@@ -35,13 +75,144 @@ def deepInput : Nat → Bytes
   | 0 => []
   | n+1 => let inner := deepInput n; [0x0a] ++ varint inner.length ++ inner
 
-theorem C06_too_deep_rejected (n : Nat) (h : 10000 ≤ n) :
-    implUnmarshal recSchema {} 0 (emptyMsg recSchema 0) (deepInput n) = .err .depth := sorry
+/-- FALSE as stated only for astronomically large `n` (not a finding): once the input reaches 2^63 bytes the
+    outermost length prefix is read as a negative Go `int` and the error is `invalidLength`, not the
+    recursion error. No Go slice is that long; the hypothesis is stated explicitly in the `_partial`. -/
+def Remark_too_deep_unbounded : Prop :=
+  ∀ (n : Nat), 10000 ≤ n →
+    implUnmarshal recSchema {} 0 (emptyMsg recSchema 0) (deepInput n) = .err .depth
+
+theorem deepInput_eq_deepBytes (n : Nat) : deepInput n = deepBytes n := by
+  induction n with
+  | zero => rfl
+  | succ n ih => simp only [deepInput, deepBytes, ih]
+
+theorem C06_too_deep_rejected (n : Nat) (h : 10000 ≤ n)
+    (hl : (deepInput n).length < 9223372036854775808) :
+    implUnmarshal recSchema {} 0 (emptyMsg recSchema 0) (deepInput n) = .err .depth := by
+  rw [deepInput_eq_deepBytes] at hl ⊢
+  exact implUnmarshal_selfRec_deep n h hl
+
+/-- the absurd counterexample: 2^60 + 1 levels; the nested payload is between 2^63 and 2^64 bytes long -/
+theorem C06_remark_too_deep_needs_length_bound : ¬ Remark_too_deep_unbounded := by
+  intro h
+  have h1 := h (hugeDepth + 1) (by decide)
+  rw [deepInput_eq_deepBytes] at h1
+  have h2 := implUnmarshal_selfRec_huge
+  have e : recSchema = selfRec := rfl
+  rw [e, h2] at h1
+  cases h1
 
 /-- A message the decoder accepted (into a fresh target) can afterwards be sized and marshalled
-    without panicking. -/
-theorem C06_post_usable (S : Schema) (o : UOpts) (i : Nat) (bs : Bytes) (v : Val) (mo : MOpts)
+    without panicking.
+
+    FALSE as stated (`C06_remark_post_usable_needs_wf`): the statement quantifies over schemas protoc
+    rejects. With a *packed repeated message* field (`S.WF` forbids it) the decoder happily appends
+    elements, and the marshal template has no packed branch for messages (modelled as `.panic`).
+    It also quantifies over an arbitrary `mo.perm` (map iteration order), which must be a permutation. -/
+def Remark_post_usable_any_schema : Prop :=
+  ∀ (S : Schema) (o : UOpts) (i : Nat) (bs : Bytes) (v : Val) (mo : MOpts),
+    o.merge = false → implUnmarshal S o i (emptyMsg S i) bs = .ok v →
+    implMarshal S mo (v.depth + 1) i v ≠ .panic
+
+/-- `message M { repeated M f = 1 [packed = true]; }` — not accepted by protoc -/
+def packedMsgSchema : Schema := ⟨[⟨[⟨1, .message 0, .repeated true⟩]⟩]⟩
+
+theorem C06_remark_post_usable_needs_wf : ¬ Remark_post_usable_any_schema := by
+  intro h
+  have hc : implUnmarshalClosure packedMsgSchema {} (([0x0a, 0x00] : Bytes).length + 1) 10000 0
+      (emptyMsg packedMsgSchema 0) [0x0a, 0x00] = .ok (.msg [.list true [.msg [.list false []] []]] []) := by rfl
+  have hu : implUnmarshal packedMsgSchema {} 0 (emptyMsg packedMsgSchema 0) [0x0a, 0x00] =
+      .ok (.msg [.list true [.msg [.list false []] []]] []) := implUnmarshal_fresh_of_closure hc
+  exact h packedMsgSchema {} 0 [0x0a, 0x00] _ ⟨true, id⟩ rfl hu (by rfl)
+
+/-- The statement with the two missing hypotheses made explicit: a schema protoc accepts (only
+    "no packed message field" is used: `PU.NoPackedMsg`, implied by `S.WF`), and a map iteration order
+    that only yields entries of the map. Then `proto.Marshal` of the decoded message, with any fuel (in
+    particular `v.depth + 1`), does not panic — and writes exactly `proto.Size` bytes. -/
+theorem C06_post_usable (S : Schema) (hS : S.WF = true) (o : UOpts) (i : Nat) (bs : Bytes) (v : Val) (mo : MOpts)
+    (hperm : mo.det = false → ∀ l x, x ∈ mo.perm l → x ∈ l)
     (ho : o.merge = false) (h : implUnmarshal S o i (emptyMsg S i) bs = .ok v) :
-    implMarshal S mo (v.depth + 1) i v ≠ .panic := sorry
+    implMarshal S mo (v.depth + 1) i v ≠ .panic :=
+  have _ := ho
+  PU.implMarshal_decoded_ne_panic S (PU.noPackedMsg_of_WF S hS) o i bs v mo hperm _ h
+
+theorem C06_post_usable_size (S : Schema) (hS : S.WF = true) (o : UOpts) (i : Nat) (bs : Bytes) (v : Val)
+    (mo : MOpts) (hperm : mo.det = false → ∀ l x, x ∈ mo.perm l → x ∈ l)
+    (h : implUnmarshal S o i (emptyMsg S i) bs = .ok v) :
+    ∃ b, implMarshal S mo (v.depth + 1) i v = .ok b ∧ b.length = implSize S mo (v.depth + 1) i v :=
+  PU.implMarshal_decoded_size S (PU.noPackedMsg_of_WF S hS) o i bs v mo hperm _ h
+
+/-- What holds for every schema: the decoded value contains no typed-nil oneof wrapper, the
+    initialisation walk of `proto.Marshal` cannot panic on it (whatever the fuel), and so `proto.Marshal`
+    can only panic inside the generated marshal closure. -/
+theorem C06_post_usable_walk (S : Schema) (o : UOpts) (i : Nat) (bs : Bytes) (v : Val) (mo : MOpts) (fuel : Nat)
+    (h : implUnmarshal S o i (emptyMsg S i) bs = .ok v) :
+    walkPanics S fuel i v = false ∧
+      (implMarshal S mo fuel i v = .panic → implMarshalClosure S mo fuel i v = .panic) :=
+  ⟨walkPanics_noNil S fuel i v (implUnmarshal_ok_noNil h),
+   implMarshal_panic_of_noNil (implUnmarshal_ok_noNil h)⟩
+
+/-! ### Non-vacuity -/
+
+/-- three levels `M{f: M{f: M{}}}` from `0a 02 0a 00` with budget 5: accepted (so the hypotheses of the
+    depth theorems are satisfiable), depth 3. -/
+example : implUnmarshalClosure recSchema {} 5 ((5 : Nat) : Int) 0 (emptyMsg recSchema 0) [0x0a, 0x02, 0x0a, 0x00] =
+    .ok (.msg [.msg [.msg [.none] []] []] []) := by rfl
+example : (Val.msg [.msg [.msg [.none] []] []] []).depth ≤ max (emptyMsg recSchema 0).depth (5 + 1) :=
+  C06_depth_bounded recSchema {} 5 5 0 _ _ [0x0a, 0x02, 0x0a, 0x00] (by decide) (by rfl)
+
+theorem recSchema_noMsgMap : NoMsgMap recSchema := by
+  intro i f hf kk hk
+  cases i with
+  | zero =>
+    simp only [recSchema, Schema.msg, List.getD_cons_zero, List.mem_singleton] at hf
+    subst hf; cases hk
+  | succ i => simp [recSchema, Schema.msg] at hf
+
+example : (Val.msg [.msg [.msg [.none] []] []] []).depth ≤ max (emptyMsg recSchema 0).depth 5 :=
+  C06_depth_bounded_exact recSchema {} 5 5 0 _ _ [0x0a, 0x02, 0x0a, 0x00] recSchema_noMsgMap (by decide)
+    (by decide) (by rfl)
+
+/-- with budget 2 the same input is rejected with the recursion error. -/
+example : implUnmarshalClosure recSchema {} 5 2 0 (emptyMsg recSchema 0) [0x0a, 0x02, 0x0a, 0x00] = .err .depth := by rfl
+
+/-- the length hypothesis of `C06_too_deep_rejected` holds at the limit: 10000 nested records
+    (10001 levels) are rejected. -/
+example : implUnmarshal recSchema {} 0 (emptyMsg recSchema 0) (deepInput 10000) = .err .depth :=
+  C06_too_deep_rejected 10000 (by decide) (by
+    rw [deepInput_eq_deepBytes]
+    have := deepBytes_length_le 10000 (by decide)
+    omega)
+
+/-- `message M { sint32 a = 1; repeated M kids = 2; }` (well-formed): `08 03 12 02 08 01 1a 01 ff` is accepted
+    (`a = -2`, one child with `a = -1`, unknown record `3: "\xff"`), and can be marshalled again. -/
+def usableSchema : Schema := ⟨[⟨[⟨1, .scalar .sint32, .singular⟩, ⟨2, .message 0, .repeated false⟩]⟩]⟩
+
+example : usableSchema.WF = true := by decide
+
+theorem usable_decodes :
+    implUnmarshal usableSchema {} 0 (emptyMsg usableSchema 0) [0x08, 0x03, 0x12, 0x02, 0x08, 0x01, 0x1a, 0x01, 0xff] =
+      .ok (.msg [.bits 4294967294, .list true [.msg [.bits 4294967295, .list false []] []]] [0x1a, 0x01, 0xff]) :=
+  implUnmarshal_fresh_of_closure (by rfl)
+
+example (mo : MOpts) (hperm : mo.det = false → ∀ l x, x ∈ mo.perm l → x ∈ l) :
+    implMarshal usableSchema mo
+      ((Val.msg [.bits 4294967294, .list true [.msg [.bits 4294967295, .list false []] []]] [0x1a, 0x01, 0xff]).depth + 1) 0
+      (.msg [.bits 4294967294, .list true [.msg [.bits 4294967295, .list false []] []]] [0x1a, 0x01, 0xff]) ≠ .panic :=
+  C06_post_usable usableSchema (by decide) {} 0 _ _ mo hperm rfl usable_decodes
+
+#print axioms C06_closure_no_panic
+#print axioms C06_no_panic
+#print axioms C06_fuel_irrelevant
+#print axioms C06_depth_bounded
+#print axioms C06_depth_bounded_exact
+#print axioms C06_remark_depth_bound_d_fails
+#print axioms C06_too_deep_rejected
+#print axioms C06_remark_too_deep_needs_length_bound
+#print axioms C06_post_usable
+#print axioms C06_post_usable_size
+#print axioms C06_post_usable_walk
+#print axioms C06_remark_post_usable_needs_wf
 
 end Pulsar
